@@ -425,10 +425,14 @@ Section Eval.
     end.
 
   (* the whole JS part: library declarations and the body share the outermost function frame, whose enclosing
-     environment binds only [inputs] (location 0) *)
+     environment binds the three CWL context names: [inputs] (location 0, the instrumented object), [self]
+     (location 1: null in the harness, modelled as undefined: both throw on property access and are falsy) and
+     [runtime] (location 2: an opaque object with string fields) *)
+  Definition genv : list (string * nat) := [("inputs", 0); ("self", 1); ("runtime", 2)].
+  Definition gstore : list val := [VInp; VUndef; VObj [("outdir", "/out"); ("tmpdir", "/tmp")]].
   Definition run (n : nat) (lib body : stmt) : res comp :=
     let prog := SSeq lib body in
-    let '(env', store') := enter_frame [("inputs", 0)] [] prog [] [VInp] in
+    let '(env', store') := enter_frame genv [] prog [] gstore in
     exec n env' prog (store', []).
 
 End Eval.
@@ -591,6 +595,107 @@ with ad_s (s : stmt) : list string :=
   end.
 
 (* ------------------------------------------------------------------------------------------------ *)
+(* 7. the combined fragment (JsDeps/Combined.v): aliases of [inputs] in the outermost frame (library + body top level),
+      tracked through identifier-to-identifier assignment exactly as in section 4, together with the function declarations
+      of section 5, as long as no alias crosses a function boundary.  [A] = the names that may ever hold the inputs
+      object (alias-capable names); every other name (other variables, self, runtime, function names) never does.
+      Function bodies stay alias-free: an alias bound INSIDE a function declaration is the refuted inner_scope case. *)
+
+Fixpoint may_inpT (A : list string) (e : expr) : bool :=
+  match e with
+  | EId x => mem x A
+  | EParen e1 => may_inpT A e1
+  | ECond _ a b => may_inpT A a || may_inpT A b
+  | EAssign _ r => may_inpT A r
+  | _ => false
+  end.
+
+Fixpoint okt_e (br : bool) (A : list string) (e : expr) : bool :=
+  match e with
+  | ENum _ | EStr _ _ | EBool _ | EId _ => true
+  | EDot e1 f =>
+      okt_e br A e1 && match get_name e1 with
+                       | Some x => negb (mem x A) || negb (is_reserved f)
+                       | None => negb (may_inpT A e1)
+                       end
+  | EIdx e1 k =>
+      okt_e br A e1 && okt_e br A k &&
+      match get_name e1 with
+      | Some x => negb (mem x A) || good_key k
+      | None => negb (may_inpT A e1)
+      end
+  | EAdd a b => okt_e br A a && okt_e br A b
+  | ECond c a b => okt_e br A c && okt_e true A a && okt_e true A b
+  | EParen e1 => okt_e br A e1
+  | EAssign x r =>
+      negb (String.eqb x "inputs") && okt_e br A r &&
+      match get_name r with
+      | Some y => if mem x A then negb br || String.eqb y "inputs" else negb (mem y A)
+      | None => negb (may_inpT A r)
+      end
+  | ECall f args => (match get_name f with Some _ => true | None => false end) && okt_l br A args
+  | EFun _ _ => false
+  end
+with okt_l (br : bool) (A : list string) (l : elist) : bool :=
+  match l with
+  | ENil => true
+  | ECons e r => okt_e br A e && negb (may_inpT A e) && okt_l br A r
+  end.
+
+Fixpoint okt_s (br : bool) (A : list string) (s : stmt) : bool :=
+  match s with
+  | SSkip | SVar _ => true
+  | SSeq a b => okt_s br A a && okt_s br A b
+  | SVarI _ e => okt_e br A e && negb (may_inpT A e)
+  | SExpr e | SRet e => okt_e br A e
+  | SIf c t f => okt_e br A c && okt_s true A t && okt_s true A f
+  | SFun _ ps body =>
+      negb br && okb_s false (ps ++ hoist_vars body) body && negb (mem "inputs" (ps ++ hoist_vars body)) &&
+      forallb (fun x => negb (mem x A)) (ps ++ hoist_vars body)
+  end.
+
+(* fields read by the declared functions *)
+Fixpoint fd_s (s : stmt) : list string :=
+  match s with
+  | SSeq a b => fd_s a ++ fd_s b
+  | SIf _ t f => fd_s t ++ fd_s f
+  | SFun _ _ body => ad_s body
+  | _ => []
+  end.
+
+(* the alias-capable names: inputs, and every target of an identifier-to-identifier assignment (outside function
+   bodies) whose right-hand side is alias-capable; computed by iterating once per such assignment *)
+Fixpoint asg_e (e : expr) : list (string * string) :=
+  match e with
+  | EDot e1 _ | EParen e1 => asg_e e1
+  | EIdx a b | EAdd a b => asg_e a ++ asg_e b
+  | ECond c a b => asg_e c ++ asg_e a ++ asg_e b
+  | EAssign x r => (match r with EId y => [(x, y)] | _ => [] end) ++ asg_e r
+  | ECall f args => asg_e f ++ asg_l args
+  | _ => []
+  end
+with asg_l (l : elist) : list (string * string) :=
+  match l with ENil => [] | ECons e r => asg_e e ++ asg_l r end.
+Fixpoint asg_s (s : stmt) : list (string * string) :=
+  match s with
+  | SSeq a b => asg_s a ++ asg_s b
+  | SVarI _ e | SExpr e | SRet e => asg_e e
+  | SIf c t f => asg_e c ++ asg_s t ++ asg_s f
+  | _ => []
+  end.
+Definition alias_step (asg : list (string * string)) (A : list string) : list string :=
+  A ++ map fst (filter (fun p => mem (snd p) A && negb (mem (fst p) A)) asg).
+Fixpoint iter {X} (n : nat) (f : X -> X) (x : X) : X := match n with O => x | S n' => iter n' f (f x) end.
+Definition alias_set (prog : stmt) : list string :=
+  iter (List.length (asg_s prog)) (alias_step (asg_s prog)) ["inputs"].
+
+Definition okT (A : list string) (lib body : stmt) : bool := mem "inputs" A && okt_s false A (SSeq lib body).
+Definition in_fragmentT (lib body : stmt) : bool := okT (alias_set (SSeq lib body)) lib body.
+(* by construction a superset of the fragments of sections 4 and 5 *)
+Definition in_fragmentC (lib body : stmt) : bool :=
+  in_fragmentT lib body || in_fragmentF lib body || (match lib with SSkip => in_fragment body | _ => false end).
+
+(* ------------------------------------------------------------------------------------------------ *)
 (* 6. whole interpolated strings: every part is evaluated left to right; the first failure aborts.  A parameter
       reference whose root is not [inputs] (self, runtime) starts at another object and reads nothing from inputs. *)
 
@@ -626,7 +731,7 @@ Definition part_ok (lib : stmt) (p : part) : bool :=
       | SgIdx _ :: _ => false
       | g :: _ => negb (String.eqb (seg_key g) "")
       end
-  | PJs body => in_fragmentF lib body || (match lib with SSkip => in_fragment body | _ => false end)
+  | PJs body => in_fragmentC lib body
   end.
 
 Definition parts_in_fragment (lib : stmt) (ps : list part) : bool := forallb (part_ok lib) ps.
